@@ -773,22 +773,7 @@ Definition twin_ok (c : case) : bool := twin_oracle 19 [0; 15; 21] c.
    min, max, is_empty; its centroids bit for bit when nothing is buffered, and -- buffered values
    being absorbed by the next compression -- a valid merge pass of (buffered values + centroids).
    ===================================================================================== *)
-Definition is_ref_image (bs : list N) : bool := (nth 0 bs 1 =? 0)%N && (nth 1 bs 1 =? 0)%N && (nth 2 bs 1 =? 0)%N.
-Definition spec_decode_any (is_f32 : bool) (bs : list N) : option td_abs :=
-  if is_ref_image bs then spec_decode_ref bs else spec_decode (if is_f32 then Float else Double) bs.
-
-Definition fin64 (b : N) : bool := (b <? 18446744073709551616)%N && negb (is_nan64 b) && negb (is_inf64 b).
-(* admissible abstract states: what a conforming writer can hold *)
-Definition abs_admissible (a : td_abs) : bool :=
-  (10 <=? a_k a)%N && (a_k a <? 65536)%N &&
-  forallb (fun c => fin64 (fst c) && (1 <=? snd c)%N && (snd c <? 18446744073709551616)%N) (a_cs a) &&
-  forallb fin64 (a_buf a) &&
-  (sumwN (a_cs a) + N.of_nat (length (a_buf a)) <? 18446744073709551616)%N &&
-  match a_minmax a with
-  | None => match a_cs a, a_buf a with [], [] => true | _, _ => false end
-  | Some (mn, mx) => negb (is_nan64 mn) && negb (is_nan64 mx) && negb (match a_cs a, a_buf a with [], [] => true | _, _ => false end)
-  end.
-
+Definition fl_of (is_f32 : bool) : flavour := if is_f32 then Float else Double.
 Definition fslots := list (option td_abs).
 Definition fget (st : fslots) (i : Z) : option td_abs := nth (Z.to_nat i) st None.
 
@@ -799,7 +784,7 @@ Definition foreign_step (st : fslots) (o : zop) (ob : list Z) : fslots * bool :=
   let slot := nth 0 a 0 in
   match code with
   | 15 | 21 =>
-      match spec_decode_any (code =? 21) (map zN (skipn 1 a)) with
+      match spec_decode_any (fl_of (code =? 21)) (map zN (skipn 1 a)) with
       | Some x => if abs_admissible x then (set_nth (Z.to_nat slot) (Some x) st, list_eqb Z.eqb ob [1])
                   else (set_nth (Z.to_nat slot) None st, true)
       | None => (set_nth (Z.to_nat slot) None st, true)
